@@ -119,8 +119,49 @@ pub fn emit(kind: &str, v: serde_json::Value) {
 }
 
 pub type MemPersister = KVVPersister<MemoryKVVStore, JsonFormat>;
+/// the transactional store of a daemon that keeps its state in the cloud: writes are staged
+/// between enter() and commit(), prepare() reports them for the cloud
+pub type CloudPersister = KVVPersister<vls_persist::kvv::cloud::CloudKVVStore<MemoryKVVStore>, JsonFormat>;
+/// what the cloud holds: key -> (version, value)
+pub type Replica = std::collections::BTreeMap<String, (u64, Vec<u8>)>;
+
+/// a transactional store over a local store with the given contents
+pub fn cloud_from(entries: &[(String, (u64, Vec<u8>))]) -> Arc<CloudPersister> {
+    use vls_persist::kvv::{KVVStore, KVV};
+    let local = MemoryKVVStore::new([7u8; 16]);
+    local.put_batch(entries.iter().map(|(k, (v, x))| KVV(k.clone(), (*v, x.clone()))).collect()).expect("fill local store");
+    Arc::new(KVVPersister(vls_persist::kvv::cloud::CloudKVVStore::new(local), JsonFormat))
+}
+
+/// every entry of the local store under a transactional store (outside a transaction)
+pub fn raw_dump(p: &CloudPersister) -> Vec<(String, (u64, Vec<u8>))> {
+    use vls_persist::kvv::KVVStore;
+    let mut v: Vec<(String, (u64, Vec<u8>))> = p.0.get_prefix("").expect("get_prefix").map(|kvv| kvv.into_inner()).collect();
+    v.sort();
+    v
+}
+
+/// the cloud takes a reported record only at a version above the one it holds (at the same
+/// version only with the same value); returns what it would refuse
+pub fn replica_apply(r: &mut Replica, muts: &lightning_signer::persist::Mutations) -> Vec<String> {
+    let mut bad = vec![];
+    for (k, (ver, val)) in muts.clone().into_iter() {
+        match r.get(&k) {
+            Some((v0, x0)) if *v0 > ver || (*v0 == ver && *x0 != val) => {
+                bad.push(format!("{} reported at version {} while the cloud holds version {}", k, ver, v0))
+            }
+            _ => {
+                r.insert(k, (ver, val));
+            }
+        }
+    }
+    bad
+}
 
 pub struct World {
+    /// Some: the node runs on the transactional store (and `persister` is unused)
+    pub cloud: Option<Arc<CloudPersister>>,
+    pub replica: Arc<std::sync::Mutex<Replica>>,
     /// validators are OnchainValidator (what the daemon runs) around the simple one
     pub onchain: bool,
     pub persister: Arc<MemPersister>,
@@ -148,14 +189,25 @@ impl World {
             use_checkpoints: false,
             allow_deep_reorgs: true,
         };
-        World { onchain: false, persister, clock, policy, seed, config }
+        World { cloud: None, replica: Default::default(), onchain: false, persister, clock, policy, seed, config }
     }
 
     pub fn default_policy() -> SimplePolicy {
         make_default_simple_policy(NETWORK)
     }
 
+    pub fn dyn_persister(&self) -> Arc<dyn Persist> {
+        match &self.cloud {
+            Some(c) => c.clone(),
+            None => self.persister.clone(),
+        }
+    }
+
     pub fn services(&self) -> NodeServices {
+        self.services_with(self.dyn_persister())
+    }
+
+    pub fn services_with(&self, persister: Arc<dyn Persist>) -> NodeServices {
         let simple = SimpleValidatorFactory::new_with_policy(self.policy.clone());
         let validator_factory: Arc<dyn lightning_signer::policy::validator::ValidatorFactory> = if self.onchain {
             Arc::new(lightning_signer::policy::onchain_validator::OnchainValidatorFactory::new_with_simple_factory(simple))
@@ -164,7 +216,6 @@ impl World {
         };
         let starting_time_factory: Arc<dyn StartingTimeFactory> =
             make_genesis_starting_time_factory(self.config.network);
-        let persister: Arc<dyn Persist> = self.persister.clone();
         let clock: Arc<dyn Clock> = self.clock.clone();
         NodeServices {
             validator_factory,
@@ -180,10 +231,44 @@ impl World {
         let services = self.services();
         let node = Node::new(self.config, &self.seed, vec![], services);
         let node_id = node.get_id();
+        let p = self.dyn_persister();
+        if self.cloud.is_some() {
+            p.enter().expect("enter");
+        }
         node.add_allowlist(&vec![]).expect("initial allowlist");
-        self.persister.new_node(&node_id, &self.config, &*node.get_state()).expect("new node");
-        self.persister.new_tracker(&node_id, &node.get_tracker()).expect("new tracker");
+        p.new_node(&node_id, &self.config, &*node.get_state()).expect("new node");
+        p.new_tracker(&node_id, &node.get_tracker()).expect("new tracker");
+        if self.cloud.is_some() {
+            let muts = p.prepare();
+            replica_apply(&mut self.replica.lock().unwrap(), &muts);
+            p.commit().expect("commit");
+        }
         Arc::new(node)
+    }
+
+    /// a signer started on the transactional store `p` (one transaction, as the daemon's start-up):
+    /// the node and what the start-up itself reported for the cloud
+    pub fn restore_on_cloud(&self, p: &Arc<CloudPersister>, node_id: &PublicKey) -> (Arc<Node>, lightning_signer::persist::Mutations) {
+        let dynp: Arc<dyn Persist> = p.clone();
+        dynp.enter().expect("enter");
+        let services = self.services_with(dynp.clone());
+        let mut found = None;
+        for (id, entry) in dynp.get_nodes().expect("get_nodes") {
+            if id == *node_id {
+                found = Some(Node::restore_node(&id, entry, &self.seed, services.clone()).expect("restore"));
+            }
+        }
+        let muts = dynp.prepare();
+        dynp.commit().expect("commit");
+        (found.expect("node not found in store"), muts)
+    }
+
+    /// every key / version / value of the (local) store the node runs on
+    pub fn dump(&self) -> Vec<(String, u64, String)> {
+        match &self.cloud {
+            Some(c) => raw_dump(c).into_iter().map(|(k, (v, x))| (k, v, String::from_utf8_lossy(&x).to_string())).collect(),
+            None => store_dump(&self.persister),
+        }
     }
 
     /// a signer restart: a second Node built from the store alone
